@@ -176,6 +176,9 @@ type ExecResult struct {
 	Key   string `json:"k"`
 	OK    bool   `json:"ok"`
 	Viols []Viol `json:"v,omitempty"`
+	// Info is handed back to BFSConfig.OpsFor when this state is expanded (e.g. which
+	// operations are meaningful here), so that the coordinator need not know the state.
+	Info string `json:"i,omitempty"`
 }
 
 // BFSJob is the wire form of one successor computation.
@@ -196,8 +199,10 @@ type BFSConfig struct {
 	Exec     func(path []int) ExecResult
 	OnViol   func(v Viol)
 	Stop     func() bool
-	// OpsFor optionally restricts the operations tried from a state (by its path).
-	OpsFor func(path []int) []int
+	// OpsFor optionally restricts the operations tried from a state (by its path and the Info its Exec returned).
+	OpsFor func(path []int, info string) []int
+	// OnState is called once for every new distinct state (path that first reached it, its result).
+	OnState func(path []int, r *ExecResult)
 	// MaxFrontier, if >0, truncates each level's frontier (reported as incomplete).
 	MaxFrontier int
 }
@@ -244,13 +249,19 @@ func ReplayBFS(cfg BFSConfig) BFSStats {
 	}
 	seen := map[string]bool{rr[0].Key: true}
 	frontier := [][]int{{}}
+	infos := map[string]string{"": rr[0].Info}
+	pk := func(p []int) string { return fmt.Sprint(p) }
+	infos[pk([]int{})] = rr[0].Info
+	if cfg.OnState != nil {
+		cfg.OnState([]int{}, rr[0])
+	}
 	st.Frontier = append(st.Frontier, 1)
 	for depth := 0; depth < cfg.MaxDepth && len(frontier) > 0; depth++ {
 		var paths [][]int
 		for _, p := range frontier {
 			ops := []int(nil)
 			if cfg.OpsFor != nil {
-				ops = cfg.OpsFor(p)
+				ops = cfg.OpsFor(p, infos[pk(p)])
 			} else {
 				for o := 0; o < cfg.NumOps; o++ {
 					ops = append(ops, o)
@@ -288,6 +299,10 @@ func ReplayBFS(cfg BFSConfig) BFSStats {
 			}
 			seen[r.Key] = true
 			nf = append(nf, paths[i])
+			infos[pk(paths[i])] = r.Info
+			if cfg.OnState != nil {
+				cfg.OnState(paths[i], r)
+			}
 		}
 		if missing {
 			st.Complete = false
